@@ -52,7 +52,11 @@ LEVEL_TEXT = ('Every spec of a complete finite box of spec shapes is parsed by t
               'names and the results-file round trip are finite sets and are swept completely. Defects of this '
               'property are shape dependent (a dropped axis, zip for product, a name bound to the wrong class), '
               'so a complete sweep of small shapes decides it inside the box.')
-LEVEL_NOTE = ('Trusted: mc/gf2.py; the qubit-count formulas of the four code classes used in the expansion part; '
+LEVEL_NOTE = ('Composite decoders (any decoder holding BaseDecoder sub-objects: sweep+matching, X-cube): every '
+              'sub-decoder of every built / re-instantiated decoder is compared (params, plain attributes, random '
+              'generator state) with its class constructed by keyword from the decoder\'s parameters, and a '
+              'sub-decoder parameter the decoder does not expose must not vary with the requested ones. '
+              'Trusted: mc/gf2.py; the qubit-count formulas of the four code classes used in the expansion part; '
               'decoder default parameters are read from the constructor signature of the class of that name. '
               'Isolation between runs is decided on what the property observes, the built simulations (mutating '
               'the parameters one simulation records or hands out must not change another); that equal-valued runs '
@@ -74,9 +78,10 @@ ASSUMPTIONS = [
     'a code / noise / decoder object built twice from equal parameters in one process is identical (C02)',
 ]
 BOUNDS = {
-    'quick': {'families': 2, 'values_per_axis': 3, 'roundtrip_sizes_per_class': 2,
+    'quick': {'families': 2, 'composite_decoder_families': 1, 'values_per_axis': 3, 'roundtrip_sizes_per_class': 2,
               'containers': ['ranges', 'ranges-list', 'runs']},
-    'thorough': {'families': 4, 'values_per_axis': 3, 'roundtrip_max_n': 150, 'roundtrip_l_max_2d': 6,
+    'thorough': {'families': 4, 'composite_decoder_families': 1, 'values_per_axis': 3, 'roundtrip_max_n': 150,
+                 'roundtrip_l_max_2d': 6,
                  'roundtrip_l_max_3d': 4, 'containers': ['ranges', 'ranges-list', 'runs']},
 }
 BUDGET_S = {'quick': 300, 'thorough': 3600}
@@ -101,6 +106,16 @@ FAMILIES = [
     {'code': 'RotatedPlanar2DCode', 'dim': 2, 'sizes': _SIZES_2D, 'decoder': 'MemoryBeliefPropagationDecoder',
      'dsets': [{'max_bp_iter': 2}, {'alpha': 0.5, 'beta': 1}]},
 ]
+# families whose decoder builds sub-decoders from its own parameters (non-default values in the range): run in
+# both tiers over a reduced set of code / noise forms (the form axes are covered by the families above; what these
+# add is the decoder-parameter axis reaching the sub-decoders). No closed qubit-count formula is trusted for these
+# classes: n is left out of their observation (C01/C02 own the lattice).
+COMPOSITE_FAMILIES = [
+    {'code': 'RotatedPlanar3DCode', 'dim': 3, 'sizes': _SIZES_3D, 'decoder': 'RotatedSweepMatchDecoder',
+     'dsets': [{'max_rounds': 1}, {'max_rounds': 2}]},
+]
+_COMPOSITE_FORM_COUNTS = [('dict', 1), ('poslist', 2)]
+FAMILIES = FAMILIES + COMPOSITE_FAMILIES
 _RATES = {1: [0.1], 2: [0.3, 0.1], 3: [0.3, 0.1, 0.2]}
 # the second member of a list of two ranges: fixed, disjoint from every first member
 _SECOND = {'code': 'RotatedPlanar2DCode', 'dim': 2, 'sizes': [{'L_x': 2}, {'L_x': 3, 'L_y': 2}],
@@ -112,7 +127,8 @@ _REF_N = {
     'RotatedPlanar2DCode': lambda a, b, c: a * b,
     'Toric3DCode': lambda a, b, c: 3 * a * b * c,
 }
-_DIM = {'Toric2DCode': 2, 'Planar2DCode': 2, 'RotatedPlanar2DCode': 2, 'Toric3DCode': 3}
+_DIM = {'Toric2DCode': 2, 'Planar2DCode': 2, 'RotatedPlanar2DCode': 2, 'Toric3DCode': 3,
+        'RotatedPlanar3DCode': 3}
 DEC_FORMS = ['absent', 'empty', 'dict', 'list1', 'list2']
 RATE_FORMS = [('scalar', 1), ('list', 1), ('list', 2), ('list', 3), ('scalar-zero', 1), ('list-zero', 2)]
 _ZERO_RATES = {1: [0], 2: [0.0, 0.1]}     # a zero rate is falsy: must still be one requested rate
@@ -198,7 +214,7 @@ def ref_code(name, p):
         lz = lx
     if dim == 2:
         lz = None
-    return [name, {'L_x': lx, 'L_y': ly, 'L_z': lz}, _REF_N[name](lx, ly, lz)]
+    return [name, {'L_x': lx, 'L_y': ly, 'L_z': lz}, _REF_N[name](lx, ly, lz) if name in _REF_N else None]
 
 
 def ref_noise(p):
@@ -251,7 +267,8 @@ def observe(sim, cache=None):
     kc = ('code', id(code))
     if kc not in cache:
         cp = code.params
-        cache[kc] = (code, canon([type(code).__name__, {k: cp.get(k) for k in _CODE_KEYS}, code.n]))
+        cache[kc] = (code, canon([type(code).__name__, {k: cp.get(k) for k in _CODE_KEYS},
+                                  code.n if type(code).__name__ in _REF_N else None]))
     ke = ('noise', id(em))
     if ke not in cache:
         cache[ke] = (em, canon([type(em).__name__, em.params]))
@@ -272,7 +289,8 @@ def observe(sim, cache=None):
         'rate': canon(sim.error_rate),
         'bound': [bc[0], bc[1], be[0], be[1], canon(dec.error_rate)],
         'recorded': canon([inp['code']['name'], {k: inp['code']['parameters'].get(k) for k in _CODE_KEYS},
-                           inp['code']['n'], inp['error_model']['name'], inp['error_model']['parameters'],
+                           inp['code']['n'] if inp['code']['name'] in _REF_N else None,
+                           inp['error_model']['name'], inp['error_model']['parameters'],
                            inp['decoder']['name'], inp['decoder']['parameters'], inp['error_rate']]),
     }, sort_keys=True)
 
@@ -414,6 +432,14 @@ def cases(tier, seed):
                 for nform, nn in FORM_COUNTS:
                     if container == 'runs' and (cform == 'dict' or nform == 'dict'):
                         continue        # identical to the 'list' form once written out as explicit runs
+                    ex.append({'part': 'expand', 'family': fi, 'container': container,
+                               'code_form': cform, 'n_code': nc, 'noise_form': nform, 'n_noise': nn})
+    for fi in range(len(FAMILIES) - len(COMPOSITE_FAMILIES), len(FAMILIES)):
+        for container in b['containers']:
+            for cform, nc in _COMPOSITE_FORM_COUNTS:
+                for nform, nn in _COMPOSITE_FORM_COUNTS:
+                    if container == 'runs' and (cform == 'dict' or nform == 'dict'):
+                        continue
                     ex.append({'part': 'expand', 'family': fi, 'container': container,
                                'code_form': cform, 'n_code': nc, 'noise_form': nform, 'n_noise': nn})
     ex.sort(key=lambda c: (c['n_code'] * c['n_noise'], c['family'], b['containers'].index(c['container']),
@@ -746,6 +772,20 @@ def eval_roundtrip(case):
                                   kind='roundtrip-decoder-differs', differs=dec_bad),
                       'detail': {'recorded': inputs['decoder'], 'original': canon(m['dec'].params),
                                  'reinstantiated': canon(dec2.params), 'requested': canon(want)}})
+        # composite decoders: the sub-decoders of the original and of the re-instantiated decoder must
+        # effectively carry the decoder's parameters
+        for which, d in (('original', m['dec']), ('reinstantiated', dec2)):
+            cprob, unreq = composite_problems(d)
+            if unreq:
+                _bump(res, 'composite_decoders_checked')
+            for kind, kf, det in cprob:
+                n_viol += 1
+                tag = (kind, kf.get('decoder'), kf.get('sub'), bool(m['pset']), which)
+                if tag not in dec_reported:
+                    dec_reported.add(tag)
+                    V.append({'key': dict(base_key, kind=kind, which=which,
+                                          decoder_params=sub_key['decoder_params'], **kf),
+                              'detail': det})
     # the same recorded inputs re-run the way a user would: as explicit runs through the parser
     if not code_reported:
         res['evals'] += 1
@@ -834,6 +874,115 @@ def _probe_expanded(runs):
                     break
                 seen[id(p)] = i
     return shared
+
+
+# ---- composite decoders: the sub-decoders must effectively carry the decoder's parameters
+
+def _subdecoders(dec):
+    """[(attribute path, sub-decoder)] for every BaseDecoder held by an attribute of `dec` (directly or in a
+    dict / list / tuple)."""
+    from panqec.decoders import BaseDecoder
+    out = []
+    for name, val in sorted(vars(dec).items()):
+        if isinstance(val, BaseDecoder):
+            out.append((name, val))
+        elif isinstance(val, dict):
+            out += [('%s[%s]' % (name, k), v) for k, v in sorted(val.items(), key=lambda kv: str(kv[0]))
+                    if isinstance(v, BaseDecoder)]
+        elif isinstance(val, (list, tuple)):
+            out += [('%s[%d]' % (name, i), v) for i, v in enumerate(val) if isinstance(v, BaseDecoder)]
+    return out
+
+
+_HAS_SUBS = {}
+
+
+def _ctor_names(cls):
+    return [k for k in inspect.signature(cls.__init__).parameters
+            if k not in ('self', 'code', 'error_model', 'error_rate', 'args', 'kwargs')]
+
+
+def _effective_state(dec):
+    """what a decoder object is effectively configured with: its params, every plain-valued instance attribute
+    and the state of every random generator it holds."""
+    attrs, rngs = {}, {}
+    for name, val in sorted(vars(dec).items()):
+        if val is None or isinstance(val, (bool, int, float, str, np.integer, np.floating, np.bool_)):
+            attrs[name] = canon(val)
+        elif isinstance(val, np.random.Generator):
+            rngs[name] = _digest(json.dumps(val.bit_generator.state, sort_keys=True, default=str))
+    return {'params': canon(dec.params), 'attrs': attrs, 'rng': rngs}
+
+
+def composite_problems(dec):
+    """-> (problems, unrequested) for one built decoder.
+    problems: [(kind, key fields, detail)].  For every sub-decoder and every parameter of `dec` that the
+    sub-decoder's constructor also takes, the sub-decoder must be the one obtained by constructing its class with
+    KEYWORD arguments: the decoder's value for the shared parameters, the sub-decoder's own reported values for
+    the others.  unrequested: {(path): canonical JSON of the sub-decoder parameters `dec` does not expose}."""
+    problems, unrequested = [], {}
+    # (no decoder is ever used to decode in this check, so whether a class holds sub-decoders is decided by
+    # its constructor: remembered per class to keep the per-simulation cost negligible)
+    if _HAS_SUBS.get(type(dec)) is False:
+        return problems, unrequested
+    subs = _subdecoders(dec)
+    _HAS_SUBS[type(dec)] = bool(subs)
+    if not subs:
+        return problems, unrequested
+    parent = dec.params
+    for path, sub in subs:
+        base = {'decoder': type(dec).__name__, 'sub': path, 'sub_cls': type(sub).__name__}
+        if sub.error_rate != dec.error_rate or cj(sub.error_model.params) != cj(dec.error_model.params):
+            problems.append(('sub-decoder-bound-to-other-noise-or-rate', base,
+                             {'decoder_rate': canon(dec.error_rate), 'sub_rate': canon(sub.error_rate),
+                              'decoder_noise': canon(dec.error_model.params),
+                              'sub_noise': canon(sub.error_model.params)}))
+        names = _ctor_names(type(sub))
+        own = sub.params
+        shared = [k for k in names if k in parent]
+        unrequested[path] = cj({k: own.get(k) for k in names if k not in parent and k in own})
+        if not shared:
+            continue
+        kw = {k: own[k] for k in names if k in own}
+        kw.update({k: parent[k] for k in shared})
+        try:
+            with _quiet():
+                ref = type(sub)(sub.code, sub.error_model, sub.error_rate, **kw)
+        except Exception:
+            continue                    # constructibility of a decoder is C05's business
+        a, b = _effective_state(sub), _effective_state(ref)
+        if a != b:
+            diff = sorted('%s.%s' % (sect, k) for sect in a for k in set(a[sect]) | set(b[sect])
+                          if a[sect].get(k) != b[sect].get(k))
+            problems.append(('sub-decoder-does-not-carry-decoder-parameters',
+                             dict(base, parameters=shared, differs=diff),
+                             {'decoder_params': canon(parent), 'sub_decoder_effective': a,
+                              'keyword_constructed_reference': b}))
+    return problems, unrequested
+
+
+def composite_batch_problems(sims):
+    """composite_problems over the decoders of one batch + : a sub-decoder parameter the decoder does not expose
+    must not change with the decoder parameters the spec requests (same code, noise and rate)."""
+    problems, groups, n = [], {}, 0
+    for s in sims:
+        dec = s.decoder
+        pr, unreq = composite_problems(dec)
+        problems += pr
+        if unreq:
+            n += 1
+        for path, val in unreq.items():
+            g = (type(dec).__name__, path, cj(s.code.params), cj(s.error_model.params), cj(s.error_rate))
+            groups.setdefault(g, {}).setdefault(val, cj(dec.params))
+    for g, vals in sorted(groups.items()):
+        if len(vals) > 1:
+            problems.append(('sub-decoder-unrequested-parameter-varies-with-requested-parameters',
+                             {'decoder': g[0], 'sub': g[1]},
+                             {'code': json.loads(g[2]), 'rate': json.loads(g[4]),
+                              'sub_parameters_by_decoder_parameters':
+                                  [[json.loads(dp), json.loads(v)] for v, dp in sorted(vals.items())][:4]}))
+            break
+    return problems, n
 
 
 def _multiset_diff(got, exp):
@@ -926,6 +1075,10 @@ def eval_expand(case):
                                   'detail': {'message': str(exc)[:200], 'shape': shape,
                                              'spec': spec if len(text) < 1500 else text[:1500]}})
                     continue
+                cprob, ncomp = composite_batch_problems(sims)
+                _bump(res, 'composite_decoders_checked', ncomp)
+                for kind, kf, det in cprob:
+                    all_v.append({'key': dict(key0, kind=kind, path=pname, **kf), 'detail': det})
                 if got != expected:
                     missing, extra = _multiset_diff(got, expected)
                     status.append('mismatch')
